@@ -1,6 +1,7 @@
 import Model
 import Spec
 import Gen
+import Proofs.Cost
 import Proofs.Frame
 /-!
   C03 — decoding arbitrary bytes never panics (and what is decoded is bounded by what was
@@ -117,6 +118,46 @@ theorem C03_pretty_asserts (t : Nat) (p : Bytes) (v : Val) (h : decodeLeaf t p =
 /-- regenerated facts: every type the dictionary loader accepts has a decoder; constants -/
 theorem C03_gen : Gen.HeaderLength = 20 ∧ Gen.Vbit = 128 ∧
     (Gen.available.all (fun p => Gen.decoderKeys.contains p.2)) = true := by decide
+
+/-! ### resources -/
+
+/-- Memory reserved for a message body follows the bytes received, not the declared length: with
+    large bodies read piecewise (`Gen.bodyChunkLength`, regenerated from `readBodyBytes`), for
+    every declared length `l` and every amount `s` actually delivered, at most one piece beyond
+    what arrived is reserved (or the pooled 1 KiB buffer). -/
+theorem C03_body_bound (l s : Nat) :
+    bodyReserved Gen.bodyChunkLength l s ≤ max 1024 (s + Gen.bodyChunkLength) :=
+  bodyReserved_chunked Gen.bodyChunkLength l s (by decide)
+
+/-- The model distinguishes: without piecewise reading (the code before the repair) a 20-byte
+    header claiming the 24-bit maximum reserves 16 MiB before a single body byte arrives. -/
+theorem C03_claimed_length_counterexample : bodyReserved 0 (16777215 - 20) 0 = 16777195 := by
+  rw [bodyReserved_unchunked _ _ (by omega)]
+
+/-- KNOWN FINDING, stated formally: nesting depth is bounded only by the input size, and the cost
+    of serialising grows with depth x size. The input `nest n` (n grouped AVPs around one
+    Result-Code) is 12 + 8n bytes long, decodes to depth n, and `Serialize` - every grouped level
+    building its own buffer - writes at least 4n^2 bytes: no linear bound K * |input| holds.
+    (String and PrettyDump have the same shape, see the measured costs in the evidence.) -/
+theorem C03_nesting_cost_counterexample (n : Nat) :
+    (nest n).len = 12 + 8 * n ∧ (nest n).depth = n ∧ 4 * n * n ≤ (nest n).copyCost :=
+  ⟨nest_len n, nest_depth n, nest_copyCost n⟩
+
+theorem C03_no_linear_bound (K : Nat) : ∃ a : AVP, K * a.len < a.copyCost := by
+  refine ⟨nest (3 * K + 4), ?_⟩
+  have h := C03_nesting_cost_counterexample (3 * K + 4)
+  rw [h.1]
+  have h2 := h.2.2
+  generalize hm : 3 * K + 4 = m at *
+  have e1 : 4 * m * m = 12 * (K * m) + 16 * m := by
+    subst hm
+    rw [Nat.mul_assoc 4, Nat.add_mul (3 * K) 4, Nat.mul_assoc 3 K, Nat.mul_add]
+    omega
+  have e2 : K * (12 + 8 * m) = 12 * K + 8 * (K * m) := by
+    rw [Nat.mul_add, Nat.mul_left_comm K 8 m]; omega
+  rw [e2]
+  rw [e1] at h2
+  omega
 
 /-- non-vacuity: V flag with Length 8 is an error, not a panic -/
 example :
